@@ -163,6 +163,16 @@ func init() {
 		}
 		return sl
 	})
+	reg(vr+"OpaqueBytes", func(ex *Exec, fn *ssa.Function, args []Value) Value {
+		// a []byte of free length and capacity (0 <= len <= cap < 2^62) whose content is never inspected
+		name := ex.drawName(ex.concreteStrArg(args[0], "tag"))
+		tc := ex.tc
+		ln := tc.Var(name+".len", 64)
+		cp := tc.Var(name+".cap", 64)
+		ex.assume(tc.And(tc.Ule(ln, cp), tc.Ule(cp, tc.BV(1<<62, 64))))
+		ex.draws = append(ex.draws, Draw{Tag: name, Kind: "opaque", Vars: []*Term{ln, cp}, Width: 64})
+		return Slice{a: []Value{}, n: ln, abs: &OpaqueBuf{cap: cp}}
+	})
 	reg(vr+"Token", func(ex *Exec, fn *ssa.Function, args []Value) Value {
 		name := ex.drawName(ex.concreteStrArg(args[0], "tag"))
 		s, vars := ex.newSymStr(name, 2)
